@@ -15,9 +15,11 @@ CONSTANTS
   FixReorgWindow = TRUE
   FixPruneAtomicFloor = TRUE
   FixCacheOnReorg = TRUE
+  FixInitConsume = TRUE
+  FixInitRetry = TRUE
 INIT Init
 NEXT Next
 VIEW view
-INVARIANTS TypeOK Consistent MemAgreesWithDisk NextStoreSucceeds StateReadsCorrect
-PROPERTIES FailedWriteAppliesNothing RestartIsNoOp
+INVARIANTS InitMutsBounded TypeOK Consistent MemAgreesWithDisk NextStoreSucceeds StateReadsCorrect
+PROPERTIES FailedInitIsRetried FailedWriteAppliesNothing RestartIsNoOp
 CHECK_DEADLOCK FALSE
